@@ -289,6 +289,39 @@ def extract() -> tuple[dict, list[str]]:
         c["selectionHeader"] = hdr[0] if hdr else None
     need("selBits", sel[0] if sel else None)
     need("selOffset", sel[1] if sel else None)
+
+    # ---- the ORDER in which an operation updates the tracking, comments and emits (C03: tracking first, record last):
+    # calls from a fixed vocabulary and `raise` statements of the method body, in source order
+    def order(rel, cls, fn, vocab):
+        f = find_func(parse(rel), fn, cls)
+        if f is None:
+            return None
+        out: list[str] = []
+
+        class V(ast.NodeVisitor):
+            def visit_Raise(self, n):
+                out.append("raise " + (ast.unparse(n.exc.func) if isinstance(n.exc, ast.Call) else ast.unparse(n.exc) if n.exc else ""))
+
+            def visit_Call(self, n):
+                self.generic_visit(n)
+                if ast.unparse(n.func) in vocab:
+                    out.append(ast.unparse(n.func))
+
+        for st in f.body:
+            V().visit(st)
+        return out
+
+    need("orderAspirate", order("robotools/worklists/base.py", "BaseWorklist", "aspirate",
+                                {"labware.remove", "self.comment", "self.aspirate_well", "self._get_well_position"}))
+    need("orderDispense", order("robotools/worklists/base.py", "BaseWorklist", "dispense",
+                                {"labware.add", "self.comment", "self.dispense_well", "self._get_well_position"}))
+    need("orderDistribute", order("robotools/worklists/base.py", "BaseWorklist", "distribute",
+                                  {"source.remove", "source.get_well_composition", "destination.add", "self.comment",
+                                   "self.reagent_distribution", "self._get_well_position"}))
+    need("orderEvoAspirate", order("robotools/evotools/worklist.py", "EvoWorklist", "evo_aspirate",
+                                   {"labware.remove", "self.comment", "self.append", "commands.evo_aspirate"}))
+    need("orderEvoDispense", order("robotools/evotools/worklist.py", "EvoWorklist", "evo_dispense",
+                                   {"labware.add", "self.comment", "self.append", "commands.evo_dispense"}))
     return c, missing
 
 
@@ -333,6 +366,8 @@ def render(c: dict) -> str:
     for key in ("templateA", "templateD", "templateR", "templateRsrc", "templateRdst", "templateComment", "templateWashDiti",
                 "templateWash", "templateDecon", "templateFlush", "templateCommit", "templateSetDiti",
                 "templateEvoAspirate", "templateEvoDispense", "templateEvoWash"):
+        lines.append(f"def {key} : List String := " + L(key))
+    for key in ("orderAspirate", "orderDispense", "orderDistribute", "orderEvoAspirate", "orderEvoDispense"):
         lines.append(f"def {key} : List String := " + L(key))
     lines += ["", "end Robotools.Generated", ""]
     return "\n".join(lines)
